@@ -106,6 +106,7 @@ class Engine(ExprMixin, CallMixin, StmtMixin):
         self.guards = []
         self.pending = []
         self.spec_mode = False
+        self.bound_vars = []
         self.cx = None
         self.cur = None
         self.cur_module = None
@@ -314,6 +315,7 @@ class Engine(ExprMixin, CallMixin, StmtMixin):
     def quantifier(self, is_all, g, p):
         vars_, guards = [], []
         saved_env = dict(p.env)
+        n_bound = len(self.bound_vars)
         try:
             for gen in g.generators:
                 if not isinstance(gen.target, ast.Name):
@@ -340,6 +342,7 @@ class Engine(ExprMixin, CallMixin, StmtMixin):
                     xv = T.scalar(ety, x)
                     guards.append(self.member(xv, dom, p))
                 vars_.append(x)
+                self.bound_vars.append(x)
                 p.env[name] = xv
                 p.env["__bv_" + name] = xv
                 for cond in gen.ifs:
@@ -353,6 +356,7 @@ class Engine(ExprMixin, CallMixin, StmtMixin):
         finally:
             p.env.clear()
             p.env.update(saved_env)
+            del self.bound_vars[n_bound:]
         if is_all:
             return T.sv_bool(z3.ForAll(vars_, z3.Implies(gd, body)))
         return T.sv_bool(z3.Exists(vars_, z3.And(gd, body)))
